@@ -228,7 +228,7 @@ TRACE = {
  "C02": ("TLC trace validation of recorded calls: sum-of-products bound (Trace_C02, Trace_Poly incl. f64) and the normalize / parallel-angle relations (Trace_Rel, exact dyadic arithmetic)",
          "Recorded executions on random inputs are consumed by TLC: |got - exact| <= K u sum|terms| with the polynomials defined in the specification, and relational promises (unit length within 16u, parallel to the input; angle of parallel dense vectors finite and 0 or pi) decided with exact dyadic rationals."),
  "C03": ("TLC trace validation on random real matrices: A*B, A*v, determinant (Leibniz) within K u sum|monomials| (Trace_Poly), entry-wise operations correctly rounded (Trace_Lanes / IeeeW)",
-         "Recorded products, determinants and transforms of random real matrices are judged by TLC against the defining polynomials evaluated with arbitrary-precision integers; entry-wise +, -, scalar * and / must be the correctly rounded IEEE result."),
+         "Recorded products, determinants and transforms of random real matrices are judged by TLC against the defining polynomials evaluated with arbitrary-precision integers; entry-wise +, -, scalar * and / must be the correctly rounded IEEE result; inverse(M) must satisfy |det| |(M X - I)_ij| <= 64 u sum_k |M_ik| (P_kj + Perm |X_kj|) and its mirror, a polynomial form of 'epsilon times the condition number'."),
  "C04": ("TLC trace validation on random unit quaternions: Hamilton product and q v q* within K u sum|monomials| (Trace_Poly), component-wise operations correctly rounded (Trace_Lanes)",
          "q*p and q*v for random unit quaternions (angles from 3e-5 to pi) are judged against the polynomial expansion of the Hamilton product / the sandwich q v q*."),
  "C05": ("TLC trace validation: every from_quat / from_mat* pair on random rotations satisfies the quaternion-to-matrix polynomial (Trace_Rel quat_mat)",
